@@ -8,6 +8,16 @@ CHECKS = {
     note="Lean kernel + propext/Classical.choice/Quot.sound; the hand-written model murmurPy is tied by differential runs only; strings < 2^32 code points; CPython int semantics.",
     technique="Lean 4 proof (refinement of unbounded-int arithmetic to BitVec 32 by induction over blocks) + model/implementation correspondence",
     ref="§6 C14"),
+ "C03": dict(
+    text="Lean theorems C03_readline_flat / C03_readvalue_flat / C03_readsegment_flat prove that each incremental reader, for every buffer and every fault-free delivery schedule of any length, returns exactly the flat split of the concatenated stream and leaves exactly the remaining stream (hence C03_*_seg_indep and C03_eintr_irrelevant); counterexamples for the pre-fix _readsegment are proved. Tied to /repo by random-schedule differential runs of the three real readers against the model and the flat spec, and by a metamorphic run of every public operation over a scenario corpus x all/1-/2-/3-cut segmentations x EINTR.",
+    note="Lean kernel + standard axioms; RECV_SIZE not modelled (a short recv is just another chunking); call-level independence is established by the reader theorems plus the metamorphic run on the real exchange loops; server sends non-negative sizes.",
+    technique="Lean 4 proof (induction over the recv schedule, first-occurrence lemmas) + correspondence + metamorphic segmentation enumeration",
+    ref="§6 C03"),
+ "C11": dict(
+    text="Lean theorems (C11_getNode_eq_some_iff, C11_getNode_set_ext/perm, C11_getNode_history_indep, C11_remove_moves_only_owner, C11_add_moves_only_to_new, spelling equivalences) hold for an arbitrary score function (so also under forced ties), any node list and any add/remove history; tied to /repo by differential runs of RendezvousHash.get_node against the model (murmur, constant and two-valued hashes), all permutations of small node sets, random histories, HashClient through the client_class seam with equivalent spellings, and fresh interpreters with different PYTHONHASHSEED. 'Spread' is measured, not proved.",
+    note="Lean kernel + standard axioms; score is a parameter (murmur3 correctness is C14); str order = code-point order; spelling equivalence modelled for the constructor path and decimal ports; spread is statistical (partial).",
+    technique="Lean 4 proof (fold invariant: winner = lexicographic maximum of (score, name)) + correspondence + metamorphic relations",
+    ref="§6 C11"),
  "C17": dict(
     text="Lean theorem C17_retry_spec characterises, for every attempts >= 1, every retry_for/do_not_retry_for lists, every subclass relation and every outcome script, the number of invocations and sleeps and the returned value / re-raised exception of the transliterated _retry loop (plus C17_validate_spec for the constructor); the model is tied to /repo by an exhaustive differential run (attempts 1..3(4) x all outcome sequences x all 256 class-list pairs) and a model-independent monitor on the call/sleep log.",
     note="Lean kernel + standard axioms; isinstance abstracted to a subclass relation; hand-written model tied by differential runs; sleep observed by patching retrying.sleep.",
